@@ -462,15 +462,22 @@ func (a *asset) generateTimelineEntries(repID string, wt wrapTimes, atoMS int) s
 		mediaTimescale: uint32(rep.MediaTimescale),
 	}
 
-	ato := uint64(atoMS * rep.MediaTimescale / 1000)
-	loopDur := uint64(rep.duration())
+	ato := atoMS * rep.MediaTimescale / 1000 // Negative for a negative availabilityTimeOffset
+	loopDur := rep.duration()
 
-	// The availabilityTimeOffset may reach into the next loop(s), so normalize after adding it.
-	relStartTime := uint64(wt.startRelMS*rep.MediaTimescale/1000) + ato
-	if relStartTime >= loopDur {
-		wt.startWraps += int(relStartTime / loopDur)
-		relStartTime %= loopDur
+	// The availabilityTimeOffset may reach into the next or previous loop(s), so normalize after adding it.
+	normalize := func(relTime, wraps int) (uint64, int) {
+		wraps += relTime / loopDur
+		relTime %= loopDur
+		if relTime < 0 {
+			relTime += loopDur
+			wraps--
+		}
+		return uint64(relTime), wraps
 	}
+
+	relStartTime, startWraps := normalize(wt.startRelMS*rep.MediaTimescale/1000+ato, wt.startWraps)
+	wt.startWraps = startWraps
 	relStartIdx := 0
 	if relStartTime < segs[0].EndTime {
 		wt.startWraps--
@@ -487,11 +494,8 @@ func (a *asset) generateTimelineEntries(repID string, wt wrapTimes, atoMS int) s
 		wt.startWraps = 0
 	}
 
-	relNowTime := uint64(wt.nowRelMS*rep.MediaTimescale/1000) + ato
-	if relNowTime >= loopDur {
-		wt.nowWraps += int(relNowTime / loopDur)
-		relNowTime %= loopDur
-	}
+	relNowTime, nowWraps := normalize(wt.nowRelMS*rep.MediaTimescale/1000+ato, wt.nowWraps)
+	wt.nowWraps = nowWraps
 	relNowIdx := 0
 	if relNowTime < segs[0].EndTime {
 		wt.nowWraps--
